@@ -72,11 +72,17 @@ func Compare(a, b Value) (int, error) {
 func WildMatch(pattern, s string) bool {
 	var b strings.Builder
 	b.WriteString(`^(?s:`)
+	esc := false
 	for _, r := range pattern {
-		switch r {
-		case '*':
+		switch {
+		case esc: // a backslash before a character denotes that character
+			esc = false
+			b.WriteString(regexp.QuoteMeta(string(r)))
+		case r == '\\':
+			esc = true
+		case r == '*':
 			b.WriteString(`.*`)
-		case '?':
+		case r == '?':
 			b.WriteString(`.`)
 		default:
 			b.WriteString(regexp.QuoteMeta(string(r)))
